@@ -481,8 +481,11 @@ feederLoop:
 					child.responseResult = errTimedOut
 					child.broker.acks.Done()
 				remainingLoop:
-					for _, msg = range msgs[i:] {
-						child.interceptors(msg)
+					for j, msg := range msgs[i:] {
+						if j > 0 {
+							// msgs[i] has already been through the interceptors before the select above
+							child.interceptors(msg)
+						}
 						select {
 						case child.messages <- msg:
 						case <-child.dying:
